@@ -55,3 +55,58 @@ Section ProlongationTie.
       rewrite ?app_nil_r; f_equal; f_equal; rsc; field.
   Qed.
 End ProlongationTie.
+
+(* ---- the optimised full-weighting restriction (the two loop nests of Interpolation::applyRestriction) as T3 regenerates them:
+   one write per coarse node, result[(ic,jc)] := (row (ic,jc) of the model R) . x; with C08_R_is_P_transpose this makes
+   "restriction = prolongation^T" a statement about the two source files as they are now ---- *)
+Section RestrictionTie.
+  Variable nr nth nscc : Z.
+  Variable h k : Z -> R.
+  Hypothesis Hnth : (2 <= nth)%Z.
+  Hypothesis Heven : Z.even nth = true.
+  Hypothesis Hnr : (3 <= nr)%Z.
+  Hypothesis Hodd : Z.odd nr = true.
+  Hypothesis Hh : forall x, (0 < h x)%R.
+  Hypothesis Hk : forall x, (0 < k x)%R.
+
+  Let nthc := Z.quot nth 2.
+  Let nrc := Z.quot (nr + 1) 2.
+  Hypothesis Hnscc : (0 <= nscc <= nrc)%Z.      (* the coarse grid's circle / radial split *)
+
+  Lemma nthc_facts' : (nth = 2 * nthc)%Z /\ (1 <= nthc)%Z.
+  Proof.
+    unfold nthc. pose proof Heven as He. apply Z.even_spec in He. destruct He as [m Hm].
+    assert (Z.quot nth 2 = m) by (rewrite Hm, Z.mul_comm; apply Z.quot_mul; lia). lia.
+  Qed.
+  Lemma nrc_facts : (nr = 2 * nrc - 1)%Z.
+  Proof.
+    unfold nrc. pose proof Hodd as Ho. apply Z.odd_spec in Ho. destruct Ho as [m Hm].
+    assert (Z.quot (nr + 1) 2 = m + 1)%Z by (replace (nr + 1)%Z with ((m + 1) * 2)%Z by lia; apply Z.quot_mul; lia). lia.
+  Qed.
+
+  Ltac rwraps jc :=
+    rewrite ?wrapT_idem;
+    rewrite ?(wrapT_small nthc jc) by lia;
+    rewrite ?(wrapT_small nth (2 * jc)) by lia;
+    rewrite ?(wrapT_wrap1 nth (2 * jc - 2)) by lia;
+    rewrite ?(wrapT_wrap1 nth (2 * jc - 1)) by lia;
+    rewrite ?(wrapT_wrap1 nth (2 * jc + 1)) by lia;
+    rewrite ?(wrap1_small nth (2 * jc)) by lia.
+
+  Theorem gen_restriction_is_model : forall (x : Z -> Z -> R) (ic jc : Z), (0 <= ic < nrc)%Z -> (0 <= jc < nthc)%Z ->
+    (ic < nscc -> @gen_restriction_circle Rsc nth nthc nrc nscc h k x ic jc =
+                  [ (((ic, jc), W_result_WAssign), @apply_row2 Rsc (@R_row Rsc nr nth h k ic jc) x) ])%Z /\
+    (nscc <= ic -> @gen_restriction_radial Rsc nth nthc nrc nscc h k x ic jc =
+                  [ (((ic, jc), W_result_WAssign), @apply_row2 Rsc (@R_row Rsc nr nth h k ic jc) x) ])%Z.
+  Proof.
+    intros x ic jc Hi Hj. destruct nthc_facts' as [E Hc]. pose proof nrc_facts as En.
+    pose proof (Hh (2 * ic - 2)%Z). pose proof (Hh (2 * ic - 1)%Z). pose proof (Hh (2 * ic)%Z). pose proof (Hh (2 * ic + 1)%Z).
+    pose proof (Hk (wrap1 nth (2 * jc - 2))). pose proof (Hk (wrap1 nth (2 * jc - 1))). pose proof (Hk (2 * jc)%Z). pose proof (Hk (wrap1 nth (2 * jc + 1))).
+    split; intros Hs;
+      [unfold gen_restriction_circle|unfold gen_restriction_radial];
+      unfold R_row, Rr_row, Rt_row, tensor, kw, InterpDefs.nrc; fold nrc; cbv zeta;
+      replace (ic * 2)%Z with (2 * ic)%Z by lia; replace (jc * 2)%Z with (2 * jc)%Z by lia; rwraps jc;
+      (destruct (Z.ltb_spec 0 ic); destruct (Z.ltb_spec ic (nscc - 1)); destruct (Z.ltb_spec nscc ic); destruct (Z.ltb_spec ic (nrc - 1));
+       try lia; cbn [andb app flat_map map fst snd apply_row2 fold_right]; rewrite ?app_nil_r; f_equal; f_equal; rsc; field; lra).
+  Qed.
+End RestrictionTie.
